@@ -165,6 +165,8 @@ EDITS = {
         ("dt03", "crates/lib/plugins/mimium-audiodriver/src/backends/local_buffer.rs", "            self.count.store(now + 1, Ordering::Relaxed);", "            self.count.store(now + 2, Ordering::Relaxed);", "verus", "dsp_tick"),
         ("dt04", "crates/lib/plugins/mimium-audiodriver/src/backends/local_buffer.rs", "            let _ = vmdata.run_dsp(Time(now));", "            let _ = vmdata.run_dsp(Time(now + 1));", "verus", "dsp_tick"),
         ("dt05", "crates/lib/plugins/mimium-audiodriver/src/driver.rs", "                let _ = plug.on_sample(time, &mut self.vm);", "                let _ = plug.on_sample(Time(time.0.saturating_sub(1)), &mut self.vm);", "verus", "dsp_tick"),
+        ("cn01", "crates/lib/mimium-lang/src/compiler/mirgen/convert_qualified_names.rs", "        Pattern::Single(name) => {\n            names.insert(*name);\n        }", "        Pattern::Single(name) => {\n            let _ = name;\n        }", "verus", "resolve_walk"),
+        ("cn02", "crates/lib/mimium-lang/src/compiler/mirgen/convert_qualified_names.rs", "        Pattern::Record(fields) => {\n            for (_, p) in fields {\n                collect_names_from_pattern(p, names);\n            }\n        }", "        Pattern::Record(fields) => {\n            let _ = fields;\n        }", "verus", "resolve_walk"),
         ("sc01", SCH + "scheduler.rs", "Some(Reverse(Task { when, closure })) if *when <= now => {", "Some(Reverse(Task { when, closure })) if *when < now => {", "verus", "scheduler"),
         ("sc02", SCH + "scheduler.rs", "self.when.cmp(&other.when)", "self.closure.cmp(&other.closure)", "both", "scheduler"),
         ("sc03", SCH + "scheduler.rs", "                let _ = self.tasks.pop();\n", "", "verus", "scheduler"),
